@@ -67,6 +67,51 @@ CHECKS.update({
             "state repeats (bounded for ever). The same checker runs at every collection of 10 workloads and the repository's own test files, "
             "and churn programs with bounded live data must reach a heap-size fixpoint.",
             "The checker shares the type table with the collector; states are identified by two 64-bit hashes of the key.", "DESIGN.md §4 C10"),
+    "C09": ("exploration", "bounded-exhaustive differential enumeration across build variants (default vs SEXP_USE_SIMPLIFY=0 vs SEXP_USE_CUSTOM_LONG_LONGS=1) plus exhaustive helper-level comparison with native __int128",
+            "Every program of the C03 generators and of a generator aimed at what the simplifier touches (all-literal arithmetic incl. "
+            "fixnum overflow, division by zero and non-numeric literals; constant-bound lets with shadowing, assignment, capture, non-use; "
+            "literal and propagated tests; value-only statements next to effectful ones in non-tail positions; rest parameters unused / read / "
+            "only assigned / captured) is run on the default build and on a build without the simplification pass, the arithmetic ones also on "
+            "the 128-bit-emulation build; outputs must be identical. harness/cllcheck.c compares all 20 portable 128-bit helpers with native "
+            "__int128 on all pairs of a 2401-value limb lattice and all shift counts (3.6e7 evaluations).",
+            "The default build is the reference side (C03 ties it to R7RS); unbound variables in value-only positions are excluded.",
+            "DESIGN.md §4 C09"),
+    "C05": ("exploration", "bounded-exhaustive enumeration of tail-context compositions with a stack-top invariant, and of recursion depths over a boundary lattice",
+            "All nestings (depth <= 2 quick, 3 thorough) of 24 tail contexts (if arms, cond clause/else/=>, case clause/else/=>, and, or, when, "
+            "unless, let, let*, letrec, letrec*, let-values, let*-values, begin, do result, named let, lambda body, case-lambda clause, internal "
+            "define body) around a loop call for 5 callee shapes (self, mutual, variadic, apply with 0/1 leading arguments): the VM's "
+            "published stack top sampled inside the loop at iterations 1,2,3,50 must be constant from the second iteration on, and every "
+            "single context also runs 3e5 (1e7 thorough) iterations. Non-tail recursion over a depth lattice (around every stack doubling, up "
+            "to 2e6) x frame shapes: exact sum or exactly the out-of-stack error object, monotone in depth, and the same context evaluates a "
+            "fixed probe program correctly afterwards.",
+            "Relies on the VM publishing its stack top before foreign calls; call/cc and call-with-values are not among the property's contexts.",
+            "DESIGN.md §4 C05"),
+    "C07": ("exploration", "bounded-exhaustive metamorphic enumeration: every admissible consistent renaming of user variables in a library of macro-use programs",
+            "17 macro-use templates (syntax-rules binding-introducing / free-reference / nested ellipsis / literals / macro-defining macro, "
+            "er-, sc- and rsc-macro-transformer versions, let-syntax, letrec-syntax, nested uses) x 6 binding forms x {first, second, both} "
+            "user variable x every admissible target among 76 names (fresh names, every identifier occurring in a macro template or "
+            "transformer, core keywords incl. _ and ..., standard procedures). The renamed program must print exactly what the original "
+            "prints, and the original must print the hand-derived value.",
+            "A target is skipped when the user code itself mentions that identifier or when it would shadow a keyword needed to classify the "
+            "definitions of the same body (both are outside what R7RS defines).", "DESIGN.md §4 C07"),
+    "C14": ("model_checking", "explicit-state exploration of the import-set algebra: every import-set expression up to a nesting bound executed by the real library system and compared name by name with a set-algebra model",
+            "States are identifier maps reached from the export set of a generated library (plain exports, an export renamed from a private "
+            "name, a prefixed name) by only / except (all subsets of size <= 3 / 2), rename (single, double, swap, chain), prefix and "
+            "drop-prefix, nesting depth 3 (quick) / 4 (thorough); every expression is handed to `environment` and queried for every name "
+            "of the universe (original, private, renamed, prefixed, unrelated). A fixed scenario checks that private helpers behind an exported "
+            "macro stay invisible while the macro works (also through a re-exporting library and a nested macro), that re-exports denote the "
+            "exporting library's binding, and that all importers share one instance of a library's state (body evaluated once).",
+            "Import sets that are an error in R7RS (absent identifier, duplicates) are not generated; drop-prefix is modelled from its documentation.",
+            "DESIGN.md §4 C14"),
+    "C16": ("model_checking", "explicit-state exploration of ephemeron / port histories with a collection possible at every position, against a reachability model",
+            "harness/ephmc.c explores every history of <= 6 (7 thorough) operations over 23 operations (new key, new ephemeron with value = "
+            "fresh object / other key / other ephemeron / list holding its own key, drop key, drop ephemeron, gc) on the real collector under "
+            "ASan with freed memory poisoned; after every step: never broken while the key is strongly reachable, broken after the collection "
+            "that finds it unreachable, value intact while the key lives. scheme/weak/fds.scm runs every history of <= 5 port operations "
+            "(open, read, close, drop, gc) checking the number of open descriptors after every step, and 700 unclosed unreferenced ports under "
+            "RLIMIT_NOFILE=64.",
+            "The harness owns all roots; /proc/self/fd is the descriptor oracle; weak hash tables are not exported by the pinned (chibi weak).",
+            "DESIGN.md §4 C16"),
 })
 
 NOT_YET = {}
